@@ -202,9 +202,14 @@ func (fv *FV) assume(st *State, phi string) {
 	if phi == "true" {
 		return
 	}
-	f := implies(st.guard, phi)
-	fv.facts = append(fv.facts, f)
-	st.facts = append(st.facts, len(fv.facts)-1)
+	// one assertion per conjunct, each directly under its (merged) guard: a quantifier buried in
+	// `(=> g (and … (=> h (and … (forall …)))))` is instantiated far less reliably than the same quantifier under
+	// `(=> (and g h) (forall …))` (measured on the cursor invariants: a needed instance was never produced)
+	for _, part := range flattenFact(phi) {
+		f := implies(st.guard, part)
+		fv.facts = append(fv.facts, f)
+		st.facts = append(st.facts, len(fv.facts)-1)
+	}
 }
 
 // define records a definitional (unguarded) fact.
